@@ -1,6 +1,6 @@
-"""Seeded generators of request histories (mostly valid, state-aware, with targeted failures)."""
-import random
+"""Seeded generators of request histories (mostly valid, state-aware, with targeted failures).
 
+Every random choice derives from the rng passed in (one seeded PRNG per history)."""
 from harness import ops
 
 VERSIONS = [0, 4, 7, 8, 11, 12, 13, 14, 18, 19, 20, 25, 26, 27, 28, 29, 30, 33, 34, 36, 37, 38, 39]
@@ -8,6 +8,21 @@ RATIOS = [1.0, 1.0, 1.0, 1.5, 16.0, 0.7, 0.1, 1 / 3, 2.5, 0.5, 1.000000000000000
 RCS = [0, 1, 2, 0, 1, 2, 5, 1000, 1001, 1003]      # VCPU, MEMORY_MB, DISK_GB, ..., custom names
 N_RP, N_NAME, N_CONS, N_AGG = 5, 6, 4, 3
 TRAITS = [0, 1, 2, 3, 100001, 100002, 100003]
+
+DEFAULT_PROFILE = {
+    'names': 5, 'rp_create': 9, 'rp_update': 6, 'rp_delete': 4, 'inv_set': 14, 'inv_post': 4, 'inv_put': 5,
+    'inv_delete': 3, 'inv_delete_all': 2, 'traits_set': 5, 'traits_delete': 2, 'aggs_set': 5,
+    'alloc_put': 18, 'alloc_post': 8, 'alloc_delete': 4, 'reshape': 8,
+}
+PROFILES = {
+    'default': DEFAULT_PROFILE,
+    'alloc': dict(DEFAULT_PROFILE, alloc_put=30, alloc_post=16, reshape=14, inv_set=18, rp_create=8, names=2),
+    'tree': dict(DEFAULT_PROFILE, rp_create=30, rp_update=35, rp_delete=14, alloc_put=6, alloc_post=2, reshape=2,
+                 inv_set=4, names=1),
+    'integrity': dict(DEFAULT_PROFILE, rp_delete=10, inv_delete=8, inv_delete_all=5, names=12, traits_set=8,
+                      alloc_delete=8),
+    'consumers': dict(DEFAULT_PROFILE, alloc_put=30, alloc_post=18, alloc_delete=10, reshape=10, names=1),
+}
 
 
 class State(object):
@@ -22,7 +37,6 @@ class State(object):
         self.allocs = dump[2]
         self.cons = {r[0]: r for r in dump[3]}
         self.rcid = {row[1]: row[0] for row in dump[7]}
-        self.rcname = {row[0]: row[1] for row in dump[7]}
 
     def gen_of(self, u):
         return self.rps[u][2] if u in self.rps else 0
@@ -57,21 +71,22 @@ def gen_allocs(rng, st, maxrp=3, allow_empty=False):
     rps = list(st.rps) or [1]
     out = []
     for u in rng.sample(range(1, N_RP + 1), rng.randint(1, maxrp)):
-        if rng.random() < 0.85 and st.rps:
+        if rng.random() < 0.9 and st.rps:
             u = rng.choice(rps)
         if any(u == x[0] for x in out):
             continue
         have = list(st.invs.get(u, {}))
         res = []
-        for rc in set(rng.choice(have) if have and rng.random() < 0.85 else rng.choice(RCS)
+        for rc in set(rng.choice(have) if have and rng.random() < 0.9 else rng.choice(RCS)
                       for _ in range(rng.randint(1, 2))):
             amt = rng.choice([1, 1, 2, 3, 4, 5, 8, 10, 12, 16])
             inv = st.invs.get(u, {}).get(rc)
-            if inv and rng.random() < 0.3:
+            if inv and rng.random() < 0.4:
                 # aim at the capacity edge
-                import math
                 cap = int((inv[2] - inv[3]) * (inv[7] * 2.0 ** inv[8]))
                 amt = max(1, cap - st.used(u, rc) + rng.choice([0, 0, 1, -1]))
+            elif inv and rng.random() < 0.5:
+                amt = max(1, inv[4]) * rng.randint(1, 3)
             res.append((rc, amt))
         out.append((u, sorted(res)))
     return out
@@ -94,10 +109,14 @@ def gen_cons(rng, st, v, allow_empty):
     return d
 
 
-def gen_op(rng, dump):
+def gen_op(rng, dump, profile='default'):
+    prof = PROFILES[profile] if isinstance(profile, str) else profile
     st = State(dump)
     rps = list(st.rps)
-    r = rng.random()
+    kinds = sorted(prof)
+    kind = rng.choices(kinds, weights=[prof[k] for k in kinds])[0]
+    if not rps and kind not in ('names', 'rp_create') and rng.random() < 0.7:
+        kind = 'rp_create'
 
     def some_rp(p_known=0.9):
         if rps and rng.random() < p_known:
@@ -108,7 +127,7 @@ def gen_op(rng, dump):
         g = st.gen_of(u)
         return g if rng.random() < p_ok else g + rng.choice([1, -1, 2])
 
-    if r < 0.05:
+    if kind == 'names':
         k = rng.random()
         v = pick_v(rng, 0 if rng.random() < 0.1 else 7)
         if k < 0.3:
@@ -116,29 +135,30 @@ def gen_op(rng, dump):
         if k < 0.45:
             return ('rc_put', v, rng.choice([1000, 1001, 1002, 1]))
         if k < 0.55:
-            return ('rc_rename', rng.choice([2, 4, 6, 7, 1]), rng.choice([1000, 1001, 1002, 0]), rng.choice([1000, 1001, 1002, 2]))
+            return ('rc_rename', rng.choice([2, 4, 6, 7, 1]), rng.choice([1000, 1001, 1002, 0]),
+                    rng.choice([1000, 1001, 1002, 2]))
         if k < 0.7:
             return ('rc_delete', v, rng.choice([1000, 1001, 1002, 1003, 0]))
         if k < 0.88:
             return ('trait_put', v, rng.choice([100001, 100002, 100003, 5]))
         return ('trait_delete', v, rng.choice([100001, 100002, 100003, 100004, 2]))
-    if r < 0.14 or not rps:
+    if kind == 'rp_create':
         v = pick_v(rng)
         parent = None
-        if v >= 14 and rps and rng.random() < 0.5:
+        if v >= 14 and rps and rng.random() < 0.55:
             parent = some_rp(0.95)
         return ('rp_create', v, rng.randint(1, N_RP), rng.randint(1, N_NAME), parent)
-    if r < 0.18:
+    if kind == 'rp_update':
         v = pick_v(rng)
         u = some_rp()
         name = st.rps[u][1] if u in st.rps and rng.random() < 0.7 else rng.randint(1, N_NAME)
         parent = 'absent'
-        if v >= 14 and rng.random() < 0.7:
+        if v >= 14 and rng.random() < 0.75:
             parent = None if rng.random() < 0.25 else some_rp(0.95)
         return ('rp_update', v, u, name, parent)
-    if r < 0.22:
+    if kind == 'rp_delete':
         return ('rp_delete', some_rp())
-    if r < 0.36:
+    if kind == 'inv_set':
         u = some_rp()
         rcs = rng.sample([0, 1, 2, 5, 1000, 1003], rng.randint(0, 3))
         if st.invs.get(u) and rng.random() < 0.6:
@@ -147,35 +167,35 @@ def gen_op(rng, dump):
                 rcs = rcs[1:]
         rcs = [rc for rc in rcs if rc < 1000 or rng.random() < 0.3]
         return ('inv_set', pick_v(rng), u, gen_for(u), [gen_inv(rng, rc) for rc in rcs])
-    if r < 0.40:
-        u = some_rp()
-        return ('inv_post', pick_v(rng), u, gen_inv(rng))
-    if r < 0.45:
+    if kind == 'inv_post':
+        return ('inv_post', pick_v(rng), some_rp(), gen_inv(rng))
+    if kind == 'inv_put':
         u = some_rp()
         have = list(st.invs.get(u, {}))
         rc = rng.choice(have) if have and rng.random() < 0.8 else rng.choice(RCS)
         return ('inv_put', pick_v(rng), u, gen_for(u), gen_inv(rng, rc))
-    if r < 0.48:
+    if kind == 'inv_delete':
         u = some_rp()
         have = list(st.invs.get(u, {}))
         rc = rng.choice(have) if have and rng.random() < 0.8 else rng.choice(RCS)
         return ('inv_delete', u, rc)
-    if r < 0.50:
+    if kind == 'inv_delete_all':
         return ('inv_delete_all', pick_v(rng), some_rp())
-    if r < 0.55:
+    if kind == 'traits_set':
         u = some_rp()
-        ts = sorted(set(rng.choice(TRAITS[:4] if rng.random() < 0.9 else TRAITS) for _ in range(rng.randint(0, 3))))
+        ts = sorted(set(rng.choice(TRAITS[:4] if rng.random() < 0.8 else TRAITS)
+                        for _ in range(rng.randint(0, 3))))
         return ('traits_set', pick_v(rng, 4), u, gen_for(u), ts)
-    if r < 0.57:
+    if kind == 'traits_delete':
         return ('traits_delete', pick_v(rng, 4), some_rp())
-    if r < 0.62:
+    if kind == 'aggs_set':
         u = some_rp()
         l = sorted(set(rng.randint(1, N_AGG) for _ in range(rng.randint(0, 3))))
         return ('aggs_set', pick_v(rng), u, gen_for(u), l)
-    if r < 0.80:
+    if kind == 'alloc_put':
         v = pick_v(rng)
         return ('alloc_put', v, gen_cons(rng, st, v, v >= 28))
-    if r < 0.88:
+    if kind == 'alloc_post':
         v = pick_v(rng, 12)
         cs = []
         for _ in range(rng.randint(1, 3)):
@@ -183,7 +203,7 @@ def gen_op(rng, dump):
             if all(c['uuid'] != x['uuid'] for x in cs):
                 cs.append(c)
         return ('alloc_post', v, cs)
-    if r < 0.92:
+    if kind == 'alloc_delete':
         return ('alloc_delete', rng.randint(1, N_CONS))
     # reshape
     v = pick_v(rng, 29)
